@@ -731,7 +731,11 @@ fn dump_state(store: &Arc<Store>, key: &MasterKey) -> Result<String> {
         }
     }
     let mut roots = Vec::new();
+    let mut snap_names_ok = true;
     for (sid, _) in store.list_with_size(FileType::Snapshot)? {
+        if store.read_full(FileType::Snapshot, &sid).is_ok_and(|d| sha(&d) != sid) {
+            snap_names_ok = false;
+        }
         match repo.get_file::<SnapshotFile>(&rustic_core::repofile::SnapshotId::from(sid)) {
             Ok(s) => roots.push(*s.tree),
             Err(_) => meta_ok = false,
@@ -787,6 +791,7 @@ fn dump_state(store: &Arc<Store>, key: &MasterKey) -> Result<String> {
     let fb_str = |nm: &mut Names, b: &hook::FlatBlob| format!("{} {} {} {} {}", u8::from(b.tree), nm.n(&b.id), b.offset, b.length, b.ulen.map_or("0".to_string(), |u| format!("1 {u}")));
     let packs = store.list_with_size(FileType::Pack)?;
     o.push(u8::from(meta_ok).to_string());
+    o.push(u8::from(snap_names_ok).to_string());
     o.push(packs.len().to_string());
     for (pid, size) in &packs {
         let data = store.read_full(FileType::Pack, pid)?;
